@@ -339,3 +339,22 @@ def run(ctx):
                 r9.check(bool(shared), "copy-end-knows-how-the-copy-began", "the CopyDone arm tests %s, written by the Sync arm, before it waits for the server" % shared,
                          "the CopyDone/CopyFail arm waits for the server's ReadyForQuery whatever started the COPY (nothing the Sync arm records is tested in it): for a COPY started through the extended protocol "
                          "(libpq: Parse/Bind/Execute/Sync, data, CopyDone, Sync) the server answers CommandComplete and waits for the Sync, pgcat waits for ReadyForQuery and never reads that Sync - both sides hang", waits[0].where())
+
+    # ---------------- R10 every kind of request has a handler
+    r10 = ctx.rule("C03-R10", "`for every client request ...`: the frontend messages of the protocol that ask the server for something each have an arm in the transaction loop of Client::handle - "
+                   "Query, Parse, Bind, Describe, Execute, Close, Sync, Flush, FunctionCall, CopyData, CopyDone, CopyFail, Terminate; a kind without an arm falls into `_ =>`, is not forwarded and never answered", floor=10)
+    hh10 = F.body(H)
+    if hh10 is None:
+        r10.missing("Client::handle")
+    else:
+        claim10 = hh10.calls("pgcat::server::Server::claim")
+        codesw = [sw for sw in switches(hh10) if sw.ty in ("char", "u8", "u32") and len(sw.targets) >= 6 and claim10 and hh10.dominates(claim10[0].block, sw.block)]
+        if not codesw:
+            r10.missing("switch on the message code in the transaction loop")
+        else:
+            have = {chr(v) for v, _ in max(codesw, key=lambda sw: len(sw.targets)).targets if 0 < v < 128}
+            NAMES = {"Q": "Query", "P": "Parse", "B": "Bind", "D": "Describe", "E": "Execute", "C": "Close", "S": "Sync", "H": "Flush", "F": "FunctionCall", "d": "CopyData", "c": "CopyDone", "f": "CopyFail", "X": "Terminate"}
+            for code_, nm_ in sorted(NAMES.items()):
+                r10.check(code_ in have, "frontend-message-arm:" + code_, "%s ('%s') has an arm in the transaction loop" % (nm_, code_),
+                          "%s ('%s') has no arm in the transaction loop of Client::handle: the message checks a server out, reaches `_ => error!(\"Unexpected code\")`, nothing is sent to the server and the client "
+                          "is never answered%s" % (nm_, code_, " - `Parse, Describe, Flush` (prepare a statement and look at it before binding) waits for ever, holding a server connection" if code_ == "H" else ""))
